@@ -153,7 +153,7 @@ loop:
 	return r
 }
 
-// ---- watchdog (machinery only: a hang that the step counter cannot see) ---------
+// ---- watchdog: a lexer that is parked forever (the step counter sees loops, not waits) ---------
 
 type slot struct {
 	mu    sync.Mutex
@@ -186,8 +186,12 @@ func watchdog() {
 			in, since := s.input, s.since
 			s.mu.Unlock()
 			if !since.IsZero() && time.Since(since) > 60*time.Second {
-				fmt.Printf("HANG: no completion after 60 s while lexing %q (not a verdict: the step counter did not fire; investigate)\n", in)
-				common.Machinery("HANG while lexing %q", in)
+				// no step of the lexer for a minute and no end of the stream: it is parked (for instance on a send nobody
+				// can receive): the lexer neither terminates nor closes its channel for this input
+				theRun.Fail(common.Failure{Check: "raw", Class: "termination", Shape: "lexer-parked-forever",
+					Case: rawCase{Input: in, Caps: capacities}, Detail: fmt.Sprintf("input %q: lexer.New / the token stream has made no progress for 60 s (the step counter is not running: the producer is parked, not looping)", in)})
+				theRun.SetCapped()
+				theRun.Finish()
 			}
 		}
 	}
